@@ -576,9 +576,28 @@ func TestC06Payload(t *testing.T) {
 				before = rapid.IntRange(31, 40).Draw(t, "nmembers")
 			}
 
+			// (one time in two the member right in front is a full resource of
+			// the payload's own type: whatever it carries stays its own)
+			full := ""
+			memberIDs := make([]string, before)
+
+			for i := range memberIDs {
+				memberIDs[i] = fmt.Sprintf("first%d", i)
+			}
+
+			if rapid.Bool().Draw(t, "fullneighbour") {
+				fp := gen.ResourcePayload(t, ts, gen.PayloadOpts{Canonical: true, AllFieldsOften: true})
+				full, memberIDs[before-1] = fp.Text, fp.ID
+			}
+
 			text := "["
 			for i := 0; i < before; i++ {
-				text += `{"id":` + gen.QuoteJSON(fmt.Sprintf("first%d", i)) + `,"type":` + gen.QuoteJSON(first) + `},`
+				if i == before-1 && full != "" {
+					text += full + ","
+					continue
+				}
+
+				text += `{"id":` + gen.QuoteJSON(memberIDs[i]) + `,"type":` + gen.QuoteJSON(first) + `},`
 			}
 
 			text += pc.Text + `]`
@@ -596,7 +615,7 @@ func TestC06Payload(t *testing.T) {
 					res = col.At(before)
 
 					for i := 0; i < before; i++ {
-						if m := col.At(i); m == nil || m.Get("id") != fmt.Sprintf("first%d", i) {
+						if m := col.At(i); m == nil || m.Get("id") != memberIDs[i] {
 							t.Fatalf("C06 violated: member %d of the collection is not the one the payload lists there\npayload: %s", i, text)
 						}
 					}
